@@ -12,6 +12,7 @@ package syncdrv
 import (
 	"bytes"
 	"context"
+	"errors"
 	"fmt"
 	"io"
 	"net/http"
@@ -84,6 +85,10 @@ type Block struct {
 	Cid   cid.Cid
 	Raw   []byte
 	Edges []Edge
+	// Direct: the test server answers requests for this block itself (the real Publisher
+	// cannot serve it); Forged: Raw does NOT hash to Cid under the CID's own function
+	Direct bool
+	Forged bool
 }
 
 type World struct {
@@ -286,7 +291,53 @@ func (w *World) AddRaw(data []byte) cid.Cid {
 	if err := w.DS.Put(context.Background(), DSKey(c), data); err != nil {
 		panic(err)
 	}
-	b := &Block{Rank: len(w.Blocks) + 1, Cid: c, Raw: data}
+	b := &Block{Rank: len(w.Blocks) + 1, Cid: c, Raw: data, Direct: true}
+	w.Blocks = append(w.Blocks, b)
+	w.byCid[c] = b
+	return c
+}
+
+// AdBytes encodes a real (unsigned) advertisement without storing it.
+func (w *World) AdBytes(prev cid.Cid, tag string) []byte {
+	ad := schema.Advertisement{
+		Provider:  "12D3KooWKRyzVWW6ChFjQjK4miCty85Niy48tpPV95XdKu1BcvMA",
+		Addresses: []string{"/ip4/127.0.0.1/tcp/9999"},
+		Entries:   schema.NoEntries,
+		ContextID: []byte(fmt.Sprintf("%s-forged-%s", w.Tag, tag)),
+		Metadata:  []byte("md"),
+	}
+	if prev != cid.Undef {
+		ad.PreviousID = cidlink.Link{Cid: prev}
+	}
+	n, err := ad.ToNode()
+	if err != nil {
+		panic(err)
+	}
+	var buf bytes.Buffer
+	if err := dagjson.Encode(n, &buf); err != nil {
+		panic(err)
+	}
+	return buf.Bytes()
+}
+
+// AddForged registers a block whose CID names the hash function `code` with a digest of
+// `length` bytes that is NOT the digest of body under that function but `digest` (what a
+// lying publisher announces); the test server answers requests for it with body.
+func (w *World) AddForged(body []byte, codec, code uint64, digest []byte) cid.Cid {
+	mh, err := multihash.Encode(digest, code)
+	if err != nil {
+		panic(err)
+	}
+	c := cid.NewCidV1(codec, mh)
+	if _, dup := w.byCid[c]; dup {
+		panic("syncdrv: duplicate block " + c.String())
+	}
+	b := &Block{Rank: len(w.Blocks) + 1, Cid: c, Raw: body, Direct: true, Forged: true}
+	if codec == cid.DagJSON {
+		if n, err := ipld.Decode(body, dagjson.Decode); err == nil {
+			b.Edges = w.edgesOf(n)
+		}
+	}
 	w.Blocks = append(w.Blocks, b)
 	w.byCid[c] = b
 	return c
@@ -486,6 +537,9 @@ func (s *Server) ServeHTTP(w http.ResponseWriter, r *http.Request) {
 		return
 	}
 	isRaw := req.Cid.Prefix().Codec == cid.Raw
+	if b, ok := s.world.byCid[req.Cid]; ok && b.Direct {
+		isRaw = true
+	}
 	if rw == nil && cut == nil && !isRaw {
 		s.Pub.ServeHTTP(w, r)
 		return
@@ -649,8 +703,15 @@ func (sub *Sub) MakeHook(kind string) dagsync.BlockHookFunc {
 // NewSub creates a Subscriber over a fresh memory datastore; hookKind is the general
 // block hook ("none": no hook option).
 func NewSub(hookKind string, opts ...dagsync.Option) *Sub {
+	return NewSubTrusted(hookKind, false, opts...)
+}
+
+// NewSubTrusted: the destination link system has TrustedStorage set as given (the library's
+// own tests use true; cidlink's default is false).
+func NewSubTrusted(hookKind string, trusted bool, opts ...dagsync.Option) *Sub {
 	ds := NewDS()
 	sub := &Sub{DS: ds, Lsys: MkLinkSystem(ds)}
+	sub.Lsys.TrustedStorage = trusted
 	if h := sub.MakeHook(hookKind); h != nil {
 		opts = append(opts, dagsync.BlockHook(h))
 	}
@@ -759,13 +820,36 @@ func (sub *Sub) StoredRanks(w *World) (ranks []int, unknown []string) {
 
 // Call runs f under recover with a timeout context.
 func Call(f func(ctx context.Context) error) (err error, panicked string) {
-	defer func() {
-		if r := recover(); r != nil {
-			panicked = fmt.Sprint(r)
-		}
+	type out struct {
+		err error
+		pan string
+	}
+	done := make(chan out, 1)
+	go func() {
+		var o out
+		defer func() {
+			if r := recover(); r != nil {
+				o.pan = fmt.Sprint(r)
+			}
+			done <- o
+		}()
+		ctx, cancel := context.WithTimeout(context.Background(), 20*time.Second)
+		defer cancel()
+		o.err = f(ctx)
 	}()
-	ctx, cancel := context.WithTimeout(context.Background(), 20*time.Second)
-	defer cancel()
-	err = f(ctx)
-	return
+	select {
+	case o := <-done:
+		return o.err, o.pan
+	case <-time.After(CallBound):
+		// the call ignores its context (e.g. it is busy computing): it is abandoned -- its
+		// goroutine may go on -- and reported; the caller must not wait for the Subscriber
+		return ErrCallTimeout, ""
+	}
 }
+
+// CallBound is the wall-clock bound of Call (the context given to the call expires after
+// 20 s; a call that has not returned 15 s later is abandoned).
+var CallBound = 35 * time.Second
+
+// ErrCallTimeout is returned by Call for a call that did not return within CallBound.
+var ErrCallTimeout = errors.New("syncdrv: the call did not return within the bound")
